@@ -79,6 +79,15 @@ example : IsPrim (⟨.triangle, cylinderTris 3 true false, [], [(⟨3, "Position
     (cylinderVerts 3 true false) (cylinderTris 3 true false) :=
   ⟨rfl, rfl, by simp, by simp [cylinderVerts, cylinderSideVerts, circleVerts]⟩
 
+/-- `extrude.Shape` / `extrude.ClosedShape` (any path length ≥ 2 the code accepts, any shape size, open or closed) -/
+theorem extrudeShape_wf (pathLen sides : Nat) (close : Bool) {m : MeshVal α}
+    (h : IsPrim m (extrudeShapeVerts pathLen sides) (extrudeShapeTris pathLen sides close)) : WF m :=
+  prim_wf h (extrudeShapeTris_lt close) (extrudeShapeTris_len pathLen sides close)
+
+example : IsPrim (⟨.triangle, extrudeShapeTris 3 4 true, [], [(⟨3, "Position"⟩, List.replicate 12 ())]⟩ : MeshVal Unit)
+    (extrudeShapeVerts 3 4) (extrudeShapeTris 3 4 true) :=
+  ⟨rfl, rfl, by simp, by simp [extrudeShapeVerts]⟩
+
 theorem quad_wf {m : MeshVal α} (h : IsPrim m quadVerts quadTris) : WF m :=
   prim_wf h quadTris_ok.1 quadTris_ok.2
 theorem cube_wf {m : MeshVal α} (h : IsPrim m cubeVerts cubeTris) : WF m :=
